@@ -15,6 +15,7 @@ import NadaVerif.Spec.Schema
 import NadaVerif.Lemmas.CompileClosed
 import NadaVerif.Lemmas.TraceInv
 import NadaVerif.Lemmas.FnExact
+import NadaVerif.Lemmas.AccExact
 
 namespace NadaVerif.C01
 open NadaVerif NadaVerif.Spec NadaVerif.Lemmas NadaVerif.Generated
@@ -86,6 +87,17 @@ worklist; any store, any outputs). -/
 theorem compile_fn_refs_resolve (st : St) (outs : List OutDecl) (m : MirProg) (h : compile st outs = .ok m) :
     ∀ t ∈ allTables m, ∀ e ∈ t, ∀ f, e.2.fnRef = some f → count f (m.functions.map (·.id)) = 1 :=
   (compile_fn_resolve st outs m h).2
+
+/-- Every `InputReference` of every table resolves to **exactly one** entry of `inputs` (by name), every
+`LiteralReference` to exactly one entry of `literals` — for every store and output list (the accumulator invariant of
+`Lemmas/AccExact.lean`: sorted party buckets, names listed once, entries are store records). -/
+theorem compile_input_literal_refs_resolve (st : St) (outs : List OutDecl) (m : MirProg) (h : compile st outs = .ok m) :
+    ∀ t ∈ allTables m, ∀ e ∈ t,
+      (∀ n p d ty, e.2 = .input n p d ty → count n (m.inputs.map (·.name)) = 1) ∧
+      (∀ v i ty, e.2 = .literal v i ty → count (toString i) (m.literals.map (·.name)) = 1) := by
+  obtain ⟨_, _, _, hc⟩ := compile_acc st outs m h
+  intro t ht e he
+  exact ⟨fun n p d ty heq => ((hc t ht e he).1 n p d ty heq).2, (hc t ht e he).2⟩
 
 /-- **Whole pipeline**: trace any command list (any program, any rejected commands in between), compile any
 output list from the resulting store — if the compilation succeeds, the MIR is acyclic. -/
